@@ -22,6 +22,7 @@ RULE = (
     '; pass 5: index-kernel diagonals with one / two index vectors (diag=True, lazy diagonal, Hadamard product); structured strategies under fixed and fixed+learned observation noise'
     '; pass 6: batched KISS-GP / SGPR / RFF models; Nystrom cells with inducing points at training inputs; interpolation over the whole grid range incl. the first / last cells (nearest-node rule) and the boundary nodes'
     '; pass 7: Nystrom cells beyond the Cholesky size and copies looked at after the original moved; KISS-GP under fast_pred_samples (covariance handed out as a root) on the Cholesky and CG sides'
+    "; pass 8: Nystrom diagonal paths (diag=True, lazy diagonal) for two different point sets; structured strategies reloaded in evaluation mode against a freshly built model; WISKI chains under fast_pred_var"
 )
 REQUIRED = ["multitask_kron", "index_kernel", "lcm_kernel", "grid_kernel_dense", "kiss_kernel_WKW", "nystrom", "rff_features", "strategy_equals_dense_conditional", "sgpr_titsias_bound", "sgpr_predictive_equations",
             "wiski_fantasy", "interp_sum_to_one", "interp_exact_at_nodes", "interp_reproduces_quadratics", "interp_matrix_equals_tensor_product", "kiss_converges", "path:InterpolatedPredictionStrategy.exact_prediction", "path:SGPRPredictionStrategy.exact_prediction"]
